@@ -152,10 +152,10 @@ def correspond(ctx):
     from lark.exceptions import GrammarError
     rng = ctx.rng
     ctx.exp_cases, ctx.exp_meta = [], []
-    ngr = ctx.scale(70, 700) * (2 if ctx.widen else 1)
+    ngr = ctx.scale(90, 700) * (2 if ctx.widen else 1)
     sampled = 0
     for gi in range(ngr):
-        rules, ts = C.gen_context_cfg(rng) if gi % 3 == 2 else C.gen_cfg(rng)
+        rules, ts = C.gen_context_cfg(rng) if gi % 2 == 1 else C.gen_cfg(rng)
         prod = C.productive(rules, ts)
         if any(a not in prod or any(s not in prod for s in rhs) for a, rhs in rules):
             continue            # outside the theorem's hypothesis (F10); see the exotic stream
